@@ -216,7 +216,7 @@ def mirror (e : Env) (toks : List String) (pre : World) : Env :=
     -- leaf points created by other ops advance the point counter of the world; keep in step
     if op == "pt.leaf" || op == "pt.leafn" then { e with aw := { e.aw with nP := e.aw.nP + 1 } }
     else if op == "ex.leaf" then { e with aw := { e.aw with nE := e.aw.nE + 1 } }
-    else if op.startsWith "step." || op == "fn.addpoint" || op == "part.block" || op == "class.set" || op == "solve.collect"
+    else if op.startsWith "step." || op == "fn.smul" || op == "fn.div" || op == "fn.stat3" || op == "fn.fixed2" || op == "fn.addpoint" || op == "part.block" || op == "class.set" || op == "solve.collect"
          || op == "solve.ok" || op == "solve.okp" || op == "solve.fail" then { e with awOk := false }
     else e
   | [] => e
@@ -377,6 +377,31 @@ def stepCore (e : Env) (line : String) : Env × String :=
       let hf ← lookup e f
       let ((x, _, v), e) ← runM e (stationaryPoint hf)
       pure (bind1 (bind1 e xn x) vn v, "ok")
+    | ["fn.stat3", f, xn, gn, vn] =>
+      let hf ← lookup e f
+      let ((x, g, v), e) ← runM e (stationaryPoint hf)
+      pure (bind1 (bind1 (bind1 e xn x) gn g) vn v, "ok")
+    | ["fn.fixed2", f, xn, vn] =>
+      let hf ← lookup e f
+      let ((x, v), e) ← runM e (fixedPoint hf)
+      pure (bind1 (bind1 e xn x) vn v, "ok")
+    | ["fn.smul", n, c, a] =>
+      -- `c * f` / `f * c` / `-f` written directly
+      let some r := parseRat c | throw "bad rat"
+      let ha ← lookup e a
+      let (h, e) ← runM e (fnSmul r ha)
+      pure (bind1 e n h, "ok")
+    | ["fn.div", n, a, c] =>
+      let some r := parseRat c | throw "bad rat"
+      let ha ← lookup e a
+      if r == 0 then pure (e, "err ZeroDivisionError") else
+      let (h, e) ← runM e (fnSmul (1 / r) ha)
+      pure (bind1 e n h, "ok")
+    | "note" :: _ => pure (e, "ok")
+    | "trace.error" :: _ => pure (e, "ok no-error-expected")
+    | ["expect.sent", _] =>
+      -- the implementation side compares the replayed solver input with the one the example's own run produced
+      pure (e, "ok same")
     | ["fn.fixed", f, xn] =>
       let hf ← lookup e f
       let ((x, _), e) ← runM e (fixedPoint hf)
